@@ -353,6 +353,24 @@ func c14BinaryChunking(quick bool) C14Group {
 	return g
 }
 
+// c14TextHistoryPlan: LOCK / UNLOCK histories through text connections vs the same histories in memory.
+func c14TextHistoryPlan(quick bool) *SeqPlan {
+	cfg := hapi.Config{FastKeys: 1, Concurrent: 1}
+	f := func(c hapi.Cmd, fl uint8) hapi.Cmd { c.Flag = fl; return c }
+	a := []SeqOp{
+		op(0, L(0, 1, 1, 0, 60, 0, 0)), op(0, L(0, 1, 1, 0, 60, 1, 2)), op(1, L(0, 1, 2, 0, 60, 1, 0)), op(1, L(0, 1, 3, 0, 60, 0xffff, 1)),
+		op(0, L(0, 2, 1, 0, 60, 0, 1)), op(1, f(L(0, 1, 1, 0, 50, 1, 2), 0x01)), op(0, f(L(0, 1, 1, 0, 90, 1, 2), 0x02)), op(1, L(0, 1, 4, 0, 0, 1, 0)),
+		op(0, U(0, 1, 1)), op(0, hapi.Cmd{Type: 2, Key: 1, Id: 1, Rcount: 1}), op(1, U(0, 1, 2)), op(1, hapi.Cmd{Type: 2, Key: 1, Id: 9, Flag: 0x01}),
+		op(0, hapi.Cmd{Type: 2, Key: 1, Id: 3, Flag: 0x02}), op(0, U(0, 2, 1)), op(1, U(0, 1, 3)),
+	}
+	d := 3
+	if !quick {
+		d = 4
+	}
+	return &SeqPlan{Specs: []*SeqSpec{{Name: "text-vs-in-memory-histories", Cfg: cfg, Alphabet: a, Depth: d, Full: true, Text: true, NoDedupe: true, MaxStates: 600000}},
+		Oracles: []SeqOracle{OracleFullVsMem("C14")}}
+}
+
 // c14TextCounts: the text options COUNT and RCOUNT are maximum numbers (binary field + 1); every boundary value
 // must produce the hold the equivalent binary command produces and be echoed unchanged in the reply.
 func c14TextCounts(quick bool) C14Group {
@@ -407,7 +425,11 @@ func c14TextCounts(quick bool) C14Group {
 func init() {
 	Registry["C14"] = func(c *Ctx) int {
 		cp := c14ConnPlan(c.Quick())
+		tp := c14TextHistoryPlan(c.Quick())
 		if c.Worker >= 0 {
+			if tp.find(c.Scen) != nil {
+				return tp.Worker(c)
+			}
 			return cp.Worker(c)
 		}
 		if len(c.Args) == 2 && c.Args[0] == "--replay" {
@@ -453,6 +475,13 @@ func init() {
 		}
 		viol += sres.Violations
 		evals += int(sres.Total.Executions)
+		ts := tp.Master(c)
+		if ts.EngineErr != "" {
+			return EngineError("%s", ts.EngineErr)
+		}
+		viol += ts.Violations
+		evals += ts.Trans
+		per["text-histories"] = ts.Coverage(tp, "every history up to the depth of LOCK / UNLOCK requests that are answered at once (Counts 0/1/0xffff, Rcounts 0/1/2, show and update flags, unlock-first, cancel flag, two clients, two keys) executed through TEXT connections of a full node and through in-memory protocol objects: result code, LCOUNT, LRCOUNT and LOCK_ID of every reply and the holders after every step must agree")
 		per["schedules"] = cp.Coverage(sres, "deviation-bounded schedule DFS (fine mode: every mutex operation of the server is a choice point) of two server threads delivering results to one binary connection of a full node; the frames the client receives must be exactly the results produced for it", c.Quick())
 		if len(samples) == 0 {
 			samples = append(samples, "none")
